@@ -211,7 +211,7 @@ pub fn exec_traced<'a>(ctx: &'a mut Ctx, sc: &'a Value, plan: &Value, tag: &str)
     std::fs::create_dir_all(&ctl).ok();
     let mut it = Interp::new(ctx, sc, tag);
     it.begin();
-    it.allow_tmp_leftovers = true;
+    it.allow_tmp_leftovers = !sc["strict_tmp"].as_bool().unwrap_or(false);
     it.strict_format = false;
     let prelude = sc["prelude"].as_array().cloned().unwrap_or_default();
     it.run_steps(&prelude, 0);
@@ -720,7 +720,7 @@ pub fn run_plan(ctx: &mut Ctx, sc: &Value, plan: &Value, tag: &str) -> Sub {
         "C04" | "C13" => delivered,
         "C07" => ex.sub.switches >= 1,
         "C15" => ex.sub.probes.get("mutating_calls_seen").cloned().unwrap_or(0) > 0,
-        _ => true,
+        _ => !ex.sub.events.is_empty(),
     };
     finish_exec(ex, &replay)
 }
@@ -1292,4 +1292,139 @@ pub fn selftest(workers: &Path) -> Result<String, String> {
     // the register-patching self-test: inject EIO into a known write and shorten another; observe both in the worker
     let _ = workers;
     Ok("ok".into())
+}
+
+// ------------------------------------------------------------------------------------------ sysim families used by opsim checks
+/// reflink through the FICLONE stub (C18 / C01), abandoned async writers with their background threads under the
+/// scheduler (C14), concurrent writers of identical content (C16).
+pub fn generate_family(family: &str, id: &str, tier: &str, rng: &mut Rng) -> Value {
+    let mut sc = match family {
+        "reflink" => gen_reflink(rng),
+        "abandon" => gen_abandon(rng),
+        _ => gen_same_content(rng, tier),
+    };
+    sc["check"] = json!(id);
+    sc["tier"] = json!(tier);
+    sc["engine"] = json!("sysim");
+    sc["family"] = json!(family);
+    if sc.get("clock0").is_none() {
+        sc["clock0"] = json!((1_500_000_000_000u64 + rng.below(1 << 38)).to_string());
+    }
+    sc
+}
+
+fn gen_reflink(rng: &mut Rng) -> Value {
+    let keys = vec!["linked".to_string(), "other".to_string(), "never".to_string()];
+    let vals = vec![json!({"seed": rng.next_u64() >> 1, "len": *rng.pick(&[0u64, 1, 300, 5000, 70_000, 1048577])}), json!({"seed": rng.next_u64() >> 1, "len": 44})];
+    let algo = *rng.pick(&ALGOS);
+    let mut prelude = vec![
+        json!({"k":"api","op":"write","entry":"write_algo","algo":algo,"key":0,"val":0,"bin":"sync","mode":"sync"}),
+        json!({"k":"api","op":"write","entry":"write_algo","algo":algo,"key":1,"val":1,"bin":"sync","mode":"sync"}),
+    ];
+    let c0 = json!({"val":0,"algo":algo});
+    let c1 = json!({"val":1,"algo":algo});
+    match rng.below(8) {
+        0..=2 => {}
+        3 => prelude.push(json!({"k":"env","act":"flip_frac","content":c0,"num":rng.below(1000),"bit":rng.below(8)})),
+        4 => prelude.push(json!({"k":"env","act":"truncate_frac","content":c0,"num":rng.below(1000)})),
+        5 => prelude.push(json!({"k":"env","act":"replace_with","content":c0,"target_content":c1})),
+        6 => prelude.push(json!({"k":"env","act":"extend","content":c0,"n":3,"seed":5})),
+        _ => prelude.push(json!({"k":"env","act":"delete","content":c0})),
+    }
+    let f = flav(rng);
+    let mut steps = Vec::new();
+    let n = rng.range(1, 4);
+    for i in 0..n {
+        let op = *rng.pick(&["reflink", "reflink", "reflink_unchecked"]);
+        let mut st = json!({"k":"api","op":op,"to":format!("$O/r{i}"),"mode":f.1});
+        match rng.below(6) {
+            0 => st["key"] = json!(2),
+            1 | 2 => st["addr"] = c0.clone(),
+            _ => st["key"] = json!(0),
+        }
+        if rng.chance(1, 6) {
+            prelude.push(json!({"k":"env","act":"write_file","path":format!("$O/r{i}"),"hex":"aabbcc"}));
+        }
+        steps.push(st);
+    }
+    json!({"keys":keys,"vals":vals,"prelude":prelude,"clients":[{"bin":f.0,"steps":steps}],"post":[],"emulate_ficlone":true,
+           "plan":{"kind":"single","faults":[],"schedule":{"policy":"first"}},"oracle":"strict"})
+}
+
+fn gen_abandon(rng: &mut Rng) -> Value {
+    let keys = vec!["kept".to_string(), "abandoned".to_string()];
+    let vals = vec![json!({"seed": rng.next_u64() >> 1, "len": *rng.pick(&[0u64, 9, 3000, 70_000, 1048577])}), json!({"seed": rng.next_u64() >> 1, "len": 21})];
+    let len = vals[0]["len"].as_u64().unwrap_or(0);
+    let f = *rng.pick(&[("astd", "async"), ("tokio", "async"), ("sync", "sync")]);
+    let prelude = vec![json!({"k":"api","op":"write","entry":"write","key":0,"val":1,"bin":"sync","mode":"sync"})];
+    let mut steps = Vec::new();
+    let n = rng.range(1, 3);
+    for _ in 0..n {
+        let mut o = json!({});
+        let mut st = json!({"k":"api","op":"write","entry":"opts","val":0,"mode":f.1});
+        if rng.chance(3, 4) {
+            st["key"] = json!(1);
+        }
+        let chunks = chunking(rng, len).unwrap_or(vec![len]);
+        match rng.below(5) {
+            0 => {
+                st["end"] = json!("drop");
+                st["stop_after"] = json!(rng.range(0, chunks.len() as u64));
+            }
+            1 | 2 => st["end"] = json!(if f.1 == "async" { "pending_drop" } else { "drop" }),
+            3 => {
+                st["end"] = json!(if f.1 == "async" { "close_drop" } else { "drop" });
+            }
+            _ => o["size"] = json!(len + (1 << 20) + 7),
+        }
+        st["chunks"] = json!(chunks);
+        st["opts"] = o;
+        steps.push(st);
+        // other successful operations interleave with the abandoned writer's background work
+        if rng.chance(1, 2) {
+            steps.push(json!({"k":"api","op":"read","key":0,"mode":f.1}));
+        }
+        if rng.chance(1, 3) {
+            steps.push(json!({"k":"api","op":"write","entry":"write","key":0,"val":1,"mode":f.1}));
+        }
+    }
+    let mut post = Vec::new();
+    for fl in PURE {
+        post.push(json!({"k":"audit","bin":fl.0,"mode":fl.1,"what":["metadata","read","list"]}));
+    }
+    post.push(json!({"k":"tmp_empty"}));
+    json!({"keys":keys,"vals":vals,"prelude":prelude,"clients":[{"bin":f.0,"steps":steps}],"post":post,"strict_tmp":true,
+           "plan":{"kind":"single","faults":[],"schedule":{"policy":"first"}},"oracle":"strict"})
+}
+
+fn gen_same_content(rng: &mut Rng, _tier: &str) -> Value {
+    // two or three writers of identical content (same or different keys, different entry points and flavours) at once
+    let keys = vec!["a".to_string(), "b".to_string()];
+    let vals = vec![json!({"seed": rng.next_u64() >> 1, "len": *rng.pick(&[0u64, 5, 4000, 1048577])})];
+    let mut prelude = Vec::new();
+    if rng.chance(1, 2) {
+        prelude.push(json!({"k":"api","op":"write","entry":"write","val":0,"bin":"sync","mode":"sync"}));
+    }
+    let n = rng.range(2, 3);
+    let mut clients = Vec::new();
+    for ci in 0..n {
+        let f = flav(rng);
+        let mut st = json!({"k":"api","op":"write","entry":*rng.pick(&["write","create","opts"]),"val":0,"mode":f.1});
+        if rng.chance(3, 4) || st["entry"] == "create" {
+            st["key"] = json!(ci % 2);
+        }
+        if st["entry"] == "opts" {
+            st["opts"] = json!({"size": vals[0]["len"]});
+        }
+        clients.push(json!({"bin":f.0,"steps":[st]}));
+    }
+    let observe = vec![
+        json!({"k":"api","op":"metadata","key":0,"bin":"sync","mode":"sync"}),
+        json!({"k":"api","op":"read","key":0,"bin":"astd","mode":"async"}),
+        json!({"k":"api","op":"metadata","key":1,"bin":"sync","mode":"sync"}),
+        json!({"k":"api","op":"read","key":1,"bin":"tokio","mode":"async"}),
+        json!({"k":"api","op":"read","addr":{"val":0,"algo":"sha256"},"bin":"sync","mode":"sync"}),
+    ];
+    json!({"keys":keys,"vals":vals,"prelude":prelude,"clients":clients,"post":[],"final_observe":observe,"check_partial_records":true,
+           "plan":{"kind":"single","faults":[],"schedule":{"policy":*rng.pick(&["random","pct"]),"seed":rng.next_u64() >> 1,"depth":2,"horizon":40}},"oracle":"serial"})
 }
